@@ -439,6 +439,9 @@ struct Zc<'a> {
     rec_above: bool,
     /// index of the last recorded breakpoint, if rule-generated ones follow it
     hand_over: Option<usize>,
+    /// the zone's rule (POSIX string or footer) has a DST period of zero
+    /// length: start and end are the same instant in some year
+    zero_len_dst: bool,
 }
 
 impl<'a> Zc<'a> {
@@ -471,7 +474,12 @@ impl<'a> Zc<'a> {
         let rec_below = eff.iter().skip(1).any(|e| rec(e) && e.start <= zones::TS_MIN_SEC);
         let rec_above = eff.iter().skip(1).any(|e| rec(e) && e.start > zones::TS_MAX_SEC);
         let hand_over = (1..eff.len()).rev().find(|&i| eff[i].recorded).filter(|&h| h + 1 < eff.len());
-        Zc { p, eff, lo, hi, rec_below, rec_above, hand_over }
+        let rule = if p.origin == "posix" || p.origin.starts_with("posix") { Some(p.name.clone()) } else { p.model.footer.clone() };
+        let zero_len_dst = rule
+            .and_then(|f| rtz::parse_posix(f.as_bytes()).ok())
+            .map(|tz| [2023i64, 2024, 2025, 2026].iter().any(|&y| matches!(tz.year_transitions(y), Some((a, b)) if a == b)))
+            .unwrap_or(false);
+        Zc { p, eff, lo, hi, rec_below, rec_above, hand_over, zero_len_dst }
     }
     /// F48 class: the instant lies in the second a recorded out-of-range
     /// transition of this zone is clamped onto.
@@ -576,13 +584,25 @@ fn check_run(r: &Report, agg: &mut Agg, sec: &str, zc: &Zc, start_ns: i128, forw
             // input class: the first rule-generated instant after the recorded
             // transitions (the hand-over), as opposed to any later rule instant
             let first_rule = j > 0 && eff[j - 1].recorded;
-            let k = if first_rule && f7(eff, j).is_empty() { ":first-rule-instant-after-the-recorded-transitions" } else { "" };
+            let k = if zc.zero_len_dst {
+                ":dst-period-of-zero-length"
+            } else if first_rule && f7(eff, j).is_empty() {
+                ":first-rule-instant-after-the-recorded-transitions"
+            } else {
+                ""
+            };
             agg.add(r, sec, &format!("{}/yields-rule-instant-where-nothing-changes{}{}", dir, k, f7(eff, j)), case(), || format!("item {} at {}", n, vf::conv::fmt_ns(t)));
-            return;
+            if !zc.zero_len_dst {
+                return;
+            }
+            // a zone whose DST period has zero length: the yearly no-op item is
+            // a known finding; what it reports is still held against the model
+            // (the info in force from that instant on) and the run goes on
         }
         let m = info(e);
         if (it.1, it.2, it.3.as_str()) != (m.utoff, m.dst, m.abbrev.as_str()) {
-            agg.add(r, sec, &format!("{}/item-info{}", dir, f7(eff, j)), case(), || format!("item {} at {}: jiff ({}, {}, {}) model ({}, {}, {})", n, e.start, it.1, it.2, it.3, m.utoff, m.dst, m.abbrev));
+            let k = if zc.zero_len_dst && !e.changing { ":dst-period-of-zero-length" } else { "" };
+            agg.add(r, sec, &format!("{}/item-info{}{}", dir, k, f7(eff, j)), case(), || format!("item {} at {}: jiff ({}, {}, {}) model ({}, {}, {})", n, e.start, it.1, it.2, it.3, m.utoff, m.dst, m.abbrev));
             return;
         }
         if lookups {
